@@ -62,7 +62,56 @@ def bind_interpreters(rng, e, partial):
     return ('seq', kind, ip, single, name, [rec(x) for x in ps])
 
 
+def sample(rng, rules, e, depth):
+    """a string the expression derives (ignoring first-match / longest-match rules), or None when the depth budget runs out"""
+    t = e[0]
+    if t == 'rune':
+        return chr(e[1])
+    if t == 'lit':
+        ex = G.lit_examples(e)
+        return rng.choice(ex[:2]) if ex else None
+    if t in ('empty', 'end'):
+        return ""
+    if t == 'ref':
+        return sample(rng, rules, rules[e[1]], depth - 1) if depth > 0 else None
+    if t in ('memo', 'name', 'ltrim', 'rtrim'):
+        return sample(rng, rules, e[2], depth)
+    if t in ('suppress', 'single'):
+        return sample(rng, rules, e[1], depth)
+    if t == 'opt':
+        return "" if rng.random() < 0.4 else sample(rng, rules, e[1], depth)
+    if t in ('any', 'choice'):
+        for x in rng.sample(e[1], len(e[1])):
+            r = sample(rng, rules, x, depth)
+            if r is not None:
+                return r
+        return None
+    kind, ps = e[1], e[5]
+    if kind == 'SeqOf':
+        todo = ps
+    elif kind == 'SeqTry':
+        todo = ps[:rng.randrange(1, len(ps) + 1)]
+    elif kind == 'SeqFirstOrAll':
+        todo = ps[:1] if rng.random() < 0.5 else ps
+    elif kind[0] == 'SMany':
+        todo = ps[:1] * rng.randrange(0 if kind[1] else 1, 4)
+    else:
+        n = rng.randrange(0 if kind[1] else 1, 4)
+        todo = ([ps[0], ps[1]] * n)[:max(0, 2 * n - 1)]
+    out = ""
+    for x in todo:
+        r = sample(rng, rules, x, depth)
+        if r is None:
+            return None
+        out += r
+    return out
+
+
 def ev_input(rng, rules, root):
+    if rng.random() < 0.6:
+        w = sample(rng, rules, root, 3)
+        if w is not None and len(w) <= 12:
+            return list(w.encode())
     pool = []
     for e in __import__("itertools").chain(*[G.walk(r) for r in rules + [root]]):
         pool += G.lit_examples(e)
@@ -94,19 +143,29 @@ def json_text(rng, depth=2):
     return "{" + ",".join('"%s":%s' % (rng.choice("abca"), json_text(rng, depth - 1)) for _ in range(rng.randrange(4))) + "}"
 
 
+def heavy(rules, root):
+    """left-recursive grammars with more than three rule references: some of them (unit cycles through nullable contexts) are so
+    ambiguous that implementation and model both exceed the per-case budget; skipped and counted, to keep the quick tier short"""
+    refs = sum(1 for e in __import__("itertools").chain(*[G.walk(r) for r in rules + [root]]) if e[0] == 'ref')
+    return (not G.lr_free(rules)) and refs > 3
+
+
 def eval_cases(rng, n_total, n_partial, n_json):
     out = []
     for partial, n in ((False, n_total), (True, n_partial)):
         for i in range(n):
             terms = None if i % 3 == 0 else EV_TERMS
             rules, root = G.rand_grammar(rng, EV_OPS if i % 4 else G.MONO, max_rules=2, depth=3, terminals=terms)
-            if engcommon.exponential_shape(rules, root):
+            if engcommon.exponential_shape(rules, root) or heavy(rules, root):
+                engcommon.SKIPPED["exponential_shape"] += 1
                 continue
             rules = [bind_interpreters(rng, r, partial) for r in rules]
             root = bind_interpreters(rng, root, partial)
             fl = engcommon.flags_for(rules, root, False) | 4
             for _ in range(3):
-                w = G.rand_input(rng, 5) if terms is None else ev_input(rng, rules, root)
+                w = ev_input(rng, rules, root)
+                if terms is None and not set(w) <= {G.A, G.B}:
+                    w = G.rand_input(rng, 5)
                 out.append((G.case_text(rules, root, w, offset=rng.choice([1, 1, 2, 7]), flags=fl),
                             {"stream": "evaluate-documented-panics" if partial else "evaluate-total",
                              "unproductive": engcommon.unprod(rules, root)}))
@@ -134,7 +193,7 @@ def eval_cases(rng, n_total, n_partial, n_json):
 
 def generate(rng, tier):
     if tier == "quick":
-        return engcommon.generate(rng, tier) + eval_cases(rng, 350, 140, 40)
+        return engcommon.generate(rng, tier) + eval_cases(rng, 400, 160, 40)
     return engcommon.generate(rng, tier) + eval_cases(rng, 8000, 3000, 800)
 
 
